@@ -358,7 +358,42 @@ func (g *g) callE(d int, minRet int) *N {
 
 func (g *g) root() *N {
 	d := g.n(1, 3, "depth")
-	switch g.n(0, 14, "root") {
+	switch g.n(0, 15, "root") {
+	case 15:
+		// ONE list / map literal (or call) evaluated several times - in a loop body, or in a function called
+		// twice: every evaluation evaluates every element again, whatever the elements look like (constants,
+		// negated calls, parenthesised constants)
+		g.f("same_literal_evaluated_repeatedly")
+		g.noFailingBody = true
+		defer func() { g.noFailingBody = false }()
+		lit := &N{K: "list"}
+		for i := g.n(1, 3, "nel"); i > 0; i-- {
+			switch g.n(0, 3, "elk") {
+			case 0:
+				lit.Ns = append(lit.Ns, Int(int64(g.n(0, 9, "c"))))
+			case 1:
+				lit.Ns = append(lit.Ns, &N{K: "negb", Ns: []*N{{K: "p", I: g.nid(), Ns: []*N{Int(int64(g.n(1, 9, "v")))}}}})
+			case 2:
+				lit.Ns = append(lit.Ns, &N{K: "negb", Ns: []*N{Id("x")}})
+			default:
+				lit.Ns = append(lit.Ns, g.leaf(Int(int64(g.n(1, 9, "v"))), false))
+			}
+		}
+		var use *N = lit
+		if g.n(0, 2, "wrap") == 0 {
+			use = &N{K: "map", Ns: []*N{Str("k"), lit}}
+		}
+		if g.n(0, 1, "rep") == 0 {
+			return &N{K: "forin", Ps: []string{"it"}, Ns: []*N{{K: "list", Ns: []*N{Int(1), Int(2), Int(3)}}}, Ss: [][]*N{{{K: "let", Ps: []string{"y"}, Ns: []*N{use}}, {K: "let", Ps: []string{"x"}, Ns: []*N{{K: "bin", S: "+", Ns: []*N{Id("x"), Int(1)}}}}}}}
+		}
+		body := []*N{
+			{K: "let", Ps: []string{"mk"}, Ns: []*N{{K: "fn", Ss: [][]*N{{{K: "ret", Ns: []*N{use}}}}}}},
+			{K: "expr", Ns: []*N{{K: "p", I: g.nid(), Ns: []*N{{K: "call", S: "mk"}}}}},
+			{K: "let", Ps: []string{"x"}, Ns: []*N{{K: "bin", S: "+", Ns: []*N{Id("x"), Int(1)}}}},
+			{K: "expr", Ns: []*N{{K: "p", I: g.nid(), Ns: []*N{{K: "call", S: "mk"}}}}},
+			{K: "ret", Ns: []*N{Int(0)}},
+		}
+		return &N{K: "let", Ps: []string{"z"}, Ns: []*N{{K: "acall", Ns: []*N{{K: "fn", Ss: [][]*N{body}}}}}}
 	case 14:
 		// ONE defer statement executed twice, its callee name bound to another function each time: the
 		// callee is part of what the defer statement evaluates, every time it runs
